@@ -2102,8 +2102,10 @@ class C17(Property):
         if case["kind"] == "bad":
             return "CaseBad %s %s" % (cfields(case["type"]), cob3(obs.get("load") or {}))
         if case["kind"] == "mfmt":
-            return "CaseMFmt %s %s %s %s" % (cfields(case["type"]), cdoc(case["doc"]), cob3(obs.get("mbytes") or {}),
-                                            cob3(obs.get("mreaders") or {}))
+            mc = obs.get("mcanon") or {}
+            return "CaseMFmt %s %s %s %s %s %s" % (cfields(case["type"]), cdoc(case["doc"]), cob3(obs.get("mbytes") or {}),
+                                                  cob3(obs.get("mreaders") or {}), cob3(mc),
+                                                  cob3({f: mc.get("r" + f) for f in ("json", "yaml", "toml")}))
         if case["kind"] == "nulls":
             l = obs.get("load") or {}
             return "CaseNull %s %s %s %s" % (cfields(case["type"]), cdoc(case["doc"]), cob(l.get("json")), cob(l.get("yaml")))
